@@ -170,6 +170,8 @@ func xOp(toks []string) (string, bool) {
 		return xsearch(toks), true
 	case "xnumcodec":
 		return xnumcodec(), true
+	case "xinf":
+		return xinf(toks), true
 	}
 	return "", false
 }
